@@ -279,6 +279,41 @@ def r05d(ctx, run):
     com = ctx.syn.fn("Ctx::lower_comptime", FILE)
     # a comptime block is compiled as a function of its own: the jump labels of the enclosing function do not exist there either
     save_restore(com, run, ["params", "scopes", "label_kinds"])
+    # ... and typestate over lower_comptime: on EVERY path, whatever the body's form, the body is lowered while params, scopes and labels are set aside
+    FIELDS = ("params", "scopes", "label_kinds")
+    cproblems = []
+    lowered = [0]
+
+    def cstep(node, st):
+        st = dict(st)
+        k = node.get("k")
+        if k == "call" and canon(node["f"]) in ("mem::take", "std::mem::take", "core::mem::take") and node["a"]:
+            tgt = canon(node["a"][0])
+            for f_ in FIELDS:
+                if tgt == "&mut self." + f_:
+                    st[f_] = "empty"
+        if k == "call" and canon(node["f"]) in ("mem::replace", "std::mem::replace", "core::mem::replace") and len(node["a"]) == 2:
+            for f_ in FIELDS:
+                if canon(node["a"][0]) == "&mut self." + f_:
+                    st[f_] = "empty" if canon(node["a"][1]).replace(" ", "") in ("Default::default()", "Vec::new()", "FxHashMap::default()", "vec![]") else "other"
+        if k == "assign":
+            for f_ in FIELDS:
+                if canon(node["l"]) == "self." + f_:
+                    st[f_] = "outer" if canon(node["r"]).startswith("old_") else "other"
+        if k == "mcall" and canon(node["r"]) == "self" and node["m"] in ("lower_expr", "lower_block", "lower_stmt"):
+            lowered[0] += 1
+            bad = [f_ for f_ in FIELDS if st[f_] != "empty"]
+            if bad:
+                cproblems.append((node["ln"], "the comptime body is lowered at line %d while self.%s still hold%s the enclosing function's entries: a comptime expression is compiled "
+                                  "as a function of its own, so a name (or label) in it must not resolve to a local or parameter of the enclosing function - whatever the "
+                                  "form of the body (`comptime f(x)` as much as `comptime { .. }`)" % (node["ln"], " / self.".join(bad), "s" if len(bad) == 1 else "")))
+        return tuple(sorted(st.items()))
+    paths.run(com.body, tuple(sorted({f_: "outer" for f_ in FIELDS}.items())), lambda n, st: cstep(n, dict(st)))
+    if not lowered[0]:
+        raise LookupError("lower_comptime lowers no body")
+    cmsgs = sorted(set(cproblems))
+    run.check(not cmsgs, com.site(), "comptime body lowered with params, scopes and labels set aside on every path", "Ctx::lower_comptime", "body-sees-nothing", com.file,
+              cmsgs[0][0] if cmsgs else com.ln, "; ".join(m for _, m in cmsgs[:3]))
 
 
 def rules(ctx):
